@@ -5,6 +5,10 @@ From C02 Require Import Model CaseDefs ProofsNodes ProofsBorders ProofsIterate P
 Import ListNotations.
 Open Scope N_scope.
 
+Section WithMatcher.
+Context {tm : Matcher}.
+
+
 (* ---------------------------------------------------------------- generic sorted-list facts *)
 Section Gen.
   Context {A : Type} (R : A -> A -> Prop).
@@ -314,6 +318,10 @@ Section Search.
     destruct rev; [eapply Permutation_trans; [|apply Permutation_rev]|]; apply IdSort.Permuted_sort.
   Qed.
 End Search.
+
+End WithMatcher.
+
+#[local] Existing Instance glob_matcher.
 
 (* ---------------------------------------------------------------- link to the executable verdicts *)
 Lemma list_eqb_refl {A} (e : A -> A -> bool) : (forall a, e a a = true) -> forall l, list_eqb e l l = true.
